@@ -110,20 +110,45 @@ def bounds(facts):
             else:
                 out.append(ob("fi.bounds", key, fn["pat"], "violated", "estimate is %s under %s, expected weight + offset when tracked and 0 otherwise" % (rets, conds), fn["qname"]))
         if fn["name"] == "get_frequent_items" and len(fn["params"]) == 2:
-            inl = {d: v["init"] for d, v in local_decls(fn).items() if v.get("init") is not None}
-            conds = []
-            walk(fn["body"], lambda n: conds.append(n) if n.get("k") == "If" else None)
+            # the condition under which a row is appended to the result, whatever its spelling (nested if, `continue` guard, a
+            # bool local, && / || / ?:): as a truth function of  err_type,  U := count + offset > threshold,  L := count > threshold
+            # it must equal  err_type == NO_FALSE_NEGATIVES ? U : L
+            from astu import single_assignment_locals, tt_eval, reach_tagged
+            inl = single_assignment_locals(fn)
             key = "frequent_items_sketch::get_frequent_items:filter-pairing"
-            ok = False
-            got = "?"
-            if conds:
-                got = txt(conds[0]["c"], inl)
-                g = C(got)
-                nfn = any(C(x) in g for x in ("((err_type==0)&&((it.second+offset)>threshold))", "((err_type==NO_FALSE_NEGATIVES)&&((it.second+offset)>threshold))"))
-                nfp = any(C(x) in g for x in ("((err_type==1)&&(it.second>threshold))", "((err_type==NO_FALSE_POSITIVES)&&(it.second>threshold))"))
-                ok = nfn and nfp
+            pushes = []
+            walk(fn["body"], lambda n: pushes.append(n) if n.get("k") == "Call" and n.get("cname") in ("push_back", "emplace_back") else None)
+            err_d, thr_d = fn["params"][0]["d"], fn["params"][1]["d"]
+            ok, got = False, "?"
+            if pushes:
+                lits = [l for l, o in reach_tagged(fn["body"], pushes[0]) if o != "loop"]
+                got = " && ".join(txt(l, inl) for l in lits)
+
+                def mk_atom(err, U, L):
+                    def atom(n):
+                        ec = eq_const(n) if n.get("k") == "Bin" else None
+                        if ec and strip(ec[0]).get("k") == "Ref" and strip(ec[0]).get("d") == err_d:
+                            return (ec[1] == err) if ec[2] == "==" else (ec[1] != err)
+                        gp = gt_pair(n) if n.get("k") == "Bin" else None
+                        if gp and gp[2] and strip(gp[1]).get("k") == "Ref" and strip(gp[1]).get("d") == thr_d:
+                            big = txt(gp[0], inl)
+                            if ".second" in big and "offset" in big:
+                                return U
+                            if ".second" in big:
+                                return L
+                        return None
+                    return atom
+                ok = bool(lits)
+                nfn = [1]   # enum frequent_items_error_type { NO_FALSE_POSITIVES, NO_FALSE_NEGATIVES }
+                walk(fn["body"], lambda n: nfn.__setitem__(0, n["v"]) if n.get("k") == "Ref" and n.get("n") == "NO_FALSE_NEGATIVES" and "v" in n else None)
+                for err in (0, 1):
+                    for U, L in ((True, True), (True, False), (False, False)):
+                        vals = [tt_eval(l, mk_atom(err, U, L), inl) for l in lits]
+                        val = False if any(v is False for v in vals) else (True if all(v is True for v in vals) else None)
+                        if val is None or val != (U if err == nfn[0] else L):
+                            ok = False
             if ok:
-                out.append(ob("fi.filter", key, conds[0]["loc"], "discharged", "NO_FALSE_NEGATIVES <-> upper bound > threshold; NO_FALSE_POSITIVES <-> lower bound > threshold", fn["qname"]))
+                out.append(ob("fi.filter", key, pushes[0]["loc"], "discharged", "NO_FALSE_NEGATIVES <-> upper bound > threshold; NO_FALSE_POSITIVES <-> lower bound > threshold (truth table over err_type, U, L)", fn["qname"]))
             else:
                 out.append(ob("fi.filter", key, fn["pat"], "violated", "filter is `%s`: NO_FALSE_NEGATIVES must test the upper bound (count + offset) and NO_FALSE_POSITIVES the lower bound (count)" % got, fn["qname"]))
             # descending sort on estimate
